@@ -184,6 +184,7 @@ fn dispatch(name: &str, a: &Args) -> bool {
     "c03_pullback" => c03::p_c03_pullback(a.u8("depth"), a.f64("x"), a.f64("y")),
     "c03_guard" => c03::p_c03_guard(a.u8("depth"), a.u8("which"), a.u64("h")),
     "c19_pullback" => c19::p_c19_pullback(a.u8("depth"), a.f64("x"), a.f64("y")),
+    "c14_dirs" => c14::p_c14_dirs(a.u8("depth"), a.u64("a"), a.u8("k")),
     _ => return false,
   }
   true
